@@ -1124,6 +1124,10 @@ var scripts = []script{
 		name: "limit-long-missing", g: config{size: 64, limit: 1, interval: time.Millisecond}, streams: 1,
 		steps: join(arr(10, 12), tick(65540)),
 	},
+	{ // a counter of a number that is no longer missing must not survive into the next cycle
+		name: "limit-stale-counter", g: config{size: 64, limit: 1, interval: ms100}, streams: 1,
+		steps: join(arr(10, 13), tick(1), arr(11), tick(1), arr(32780, 10, 12), tick(1)),
+	},
 	{ // wrap-around with loss on both sides of 65535/0 and late repair
 		name: "wrap-loss-repair", g: config{size: 128, skip: 1, interval: ms100}, streams: 1,
 		steps: join(arr(seqRange(65500, 65530)...), arr(seqRange(65533, 65540)...), arr(3, 6, 7, 10), tick(1),
